@@ -189,6 +189,10 @@ theorem woottersReadout_pure {t : ℝ} (ht : 0 ≤ t) : woottersReadout [0, 0, 0
   have := Real.sqrt_nonneg t
   rw [max_eq_right] <;> linarith
 
+/-- the zero spectrum (pure product states, theorem `concurrenceArg_product`) reads out as concurrence 0 -/
+theorem woottersReadout_zero : woottersReadout [(0 : ℝ), 0, 0, 0] = 0 := by
+  rw [woottersReadout_pure le_rfl, Real.sqrt_zero]
+
 /-- **Bell-diagonal states**: spectrum `(p_i²)`, weights summing to 1, `d` the largest: concurrence `max(0, 2 p_max − 1)` -/
 theorem woottersReadout_bellDiag {a b c d : ℝ} (ha : 0 ≤ a) (hb : 0 ≤ b) (hc : 0 ≤ c) (hd : 0 ≤ d) (hs : a + b + c + d = 1) :
     woottersReadout [a ^ 2, b ^ 2, c ^ 2, d ^ 2] = max 0 (2 * d - 1) := by
